@@ -125,9 +125,24 @@ def typed_part(p, m, rnd):
     return " " + p["ty"] if rnd.random() < 0.25 else ""
 
 
+REFNAME = "lim"
+
+
+def ref_literal(p):
+    """The definition of the reference node, if a condition of p compares {?} with it."""
+    for c in p["cons"]:
+        if c["c"] == "cond":
+            for a in c["atoms"]:
+                if a["lit"]["t"] == "ref":
+                    return a["lit"]
+    return None
+
+
 def atom_text(p, a, outer_quote, rnd):
     lit = a["lit"]
-    if lit["t"] == "num":
+    if lit["t"] == "ref":
+        lt = "{?" + REFNAME + "}"                 # the value of the reference node
+    elif lit["t"] == "num":
         # literals of a condition are cast with the node's dtype by the library: keep the shortest spelling
         lt = num_text(lit, "int") + (" " + lit["u"] if lit["u"] else "")
     elif lit["t"] == "str":
@@ -137,7 +152,7 @@ def atom_text(p, a, outer_quote, rnd):
         lt = "true" if lit["b"] else "false"
     if a["op"] == "is":
         return "{?}"
-    sp = rnd.choice([" ", " ", ""]) if lit["t"] != "num" else " "
+    sp = rnd.choice([" ", " ", ""]) if lit["t"] not in ("num", "ref") else " "
     if a["left"] == "self":
         return "{?}" + sp + a["op"] + sp + lt
     return lt + sp + a["op"] + sp + "{?}"
@@ -239,7 +254,7 @@ def render_import(p, rnd):
         lines.append(path + typed_part(p, m, rnd) + " = " + value_text(p, m, rnd, salt + j + 1) + cm())
     if rnd.random() < 0.3:
         lines.append("z_post int = 1")
-    return {"text": "\n".join(lines) + "\n", "path": path, "bypath": None, "origpath": orig, "files": files}
+    return {"text": "\n".join(lines) + "\n", "path": path, "bypath": None, "origpath": orig, "files": files, "text2": None}
 
 
 def render(p, seed):
@@ -257,6 +272,9 @@ def render(p, seed):
     lines = []
     if rnd.random() < 0.3:
         lines.append("w_pre int = 7")
+    ref = ref_literal(p)
+    if ref is not None:                               # the node the condition refers to, defined in front
+        lines.append(REFNAME + " " + p["ty"] + " = " + num_text(ref, "int") + (" " + ref["u"] if ref["u"] else "") + cm())
     if grouped:
         lines.append("grp")
     tyname = p["ty"] + (dims_text(p["dims"]) if p["dims"] else "")
@@ -292,15 +310,26 @@ def render(p, seed):
     if grouped and not inside and p["place"] == "def" and rnd.random() < 0.5:
         lines.append("z_mid bool = true")        # a further node; constraint lines that follow a modification
                                                  # get no neighbour the abstract program does not know about
+    two = p.get("split", "one") == "two"
+    if two:                                            # everything from here on is a second text, DIP(env)
+        first, lines = lines, []
+        mind, mname = "", ("grp." + name if grouped else name)
     for j, m in enumerate(p["mods"]):
         lines.append(mind + mname + typed_part(p, m, rnd) + " = " + value_text(p, m, rnd, salt + j + 1) + cm())
     if p["place"] == "mod":
         lines += [mind + step + c for c in clines]
+    if p.get("refm", {"t": "nil"})["t"] != "nil":      # the reference node gets a new value
+        r = p["refm"]
+        lines.append(REFNAME + " = " + num_text(r, "int") + (" " + r["u"] if r["u"] else "") + cm())
     if rnd.random() < 0.3:
-        lines.append((mind if inside else "") + "z_post int = 1")
+        lines.append(("" if two else (mind if inside else "")) + "z_post int = 1")
     path = ("grp." if grouped else "") + name
     bypath = ("grp." if grouped else "") + byname
-    return {"text": "\n".join(lines) + "\n", "path": path, "bypath": bypath, "origpath": None, "files": {}}
+    out = {"text": "\n".join(lines) + "\n", "path": path, "bypath": bypath, "origpath": None, "files": {}, "text2": None}
+    if two:
+        out["text"] = "\n".join(first) + "\n"
+        out["text2"] = "\n".join(lines) + "\n" if lines else ""
+    return out
 
 
 # ----------------------------------------------------------------------------- observation
@@ -332,7 +361,7 @@ def _speedup():
     _FAST[0] = True
 
 
-def observe(text, files=None):
+def observe(text, files=None, text2=None):
     """-> ("accept", {path: [value, unit]}) | ("reject", "ExcType: message")
     files: {name: content} written to a scratch directory whose path replaces SRCDIR in the text."""
     if files:
@@ -342,22 +371,39 @@ def observe(text, files=None):
             for fn, content in files.items():
                 with open(os.path.join(d, fn), "w") as f:
                     f.write(content)
-            return _observe(text.replace(SRCDIR, d))
+            return _observe(text.replace(SRCDIR, d), text2)
         finally:
             shutil.rmtree(d, ignore_errors=True)
-    return _observe(text)
+    return _observe(text, text2)
 
 
-def _observe(text):
+def _observe(text, text2=None):
+    """text2: a second text parsed on top of the environment the first parse returned, DIP(env)."""
     from scinumtools.dip import DIP
     from scinumtools.dip.settings import Format
     _speedup()
+    if text2 is not None:
+        try:
+            with DIP() as d:
+                d.add_string(text)
+                env1 = d.parse()
+            with DIP(env1) as d:
+                d.add_string(text2)
+                env = d.parse()
+        except Exception as e:
+            return "reject", type(e).__name__ + ": " + str(e)[:160]
+        return _data(env)
     try:
         with DIP() as d:
             d.add_string(text)
             env = d.parse()
     except Exception as e:                         # the property: "otherwise parsing fails"
         return "reject", type(e).__name__ + ": " + str(e)[:160]
+    return _data(env)
+
+
+def _data(env):
+    from scinumtools.dip.settings import Format
     try:
         raw = env.data(format=Format.TUPLE)
     except Exception as e:
